@@ -28,7 +28,7 @@ MANIFEST = {
     "technique": "Coq proof (case split over the C11 specifications of py2v-generated code) + pairwise differential testing across file-thing kinds with a minimal-interface object",
 }
 ALLOWED_ATTRS = {"name", "close", "fileno", "mode", "closed", "filename"}
-WAYS = ["bytesio", "str", "bytes", "path", "file", "min_clamp", "min_raise", "kw_filename", "kw_fileobj"]
+WAYS = ["bytesio", "str", "bytes", "path", "file", "file_bytesname", "min_clamp", "min_raise", "kw_filename", "kw_fileobj"]
 
 
 def history(kind, way, data, tmpdir, base, asked):
@@ -55,6 +55,8 @@ def history(kind, way, data, tmpdir, base, asked):
             fobj = Minimal(data, "raise")
         elif way == "file":
             fobj = open(fn, "rb+")
+        elif way == "file_bytesname":
+            fobj = open(os.fsencode(fn), "rb+")      # .name is bytes
 
         def call(f, *a, **kw):
             arg, kws = mk()
@@ -89,7 +91,7 @@ def history(kind, way, data, tmpdir, base, asked):
         call(o3.delete)
         o4 = load()
         snaps.append(KM.canon_mem(kind, o4))
-        if fobj is not None and way == "file":
+        if fobj is not None and way in ("file", "file_bytesname"):
             closed = fobj.closed
             fobj.close()
         else:
@@ -108,7 +110,7 @@ def history(kind, way, data, tmpdir, base, asked):
     except Exception as e:
         return ("EXC:" + type(e).__name__, len(snaps), str(e)[:80])
     finally:
-        if way == "file" and fobj is not None and not fobj.closed:
+        if way in ("file", "file_bytesname") and fobj is not None and not fobj.closed:
             fobj.close()
 
 
@@ -156,6 +158,112 @@ def load_only(ctx, kind, sample, data):
                 ctx.violation("oracle", "C17 %s: loading requested attributes beyond read/seek/tell/name: %s" % (kind.name, sorted(extra)), d)
 
 
+def cross_ways(ctx, kind, sample, data, tmp):
+    """an object loaded one way and saved/deleted another way acts on the file it is GIVEN: load from a path then
+    save(fileobj) must write the stream (and leave the path alone), and the other way round"""
+    if kind.is_tagclass:
+        return
+    K = kind.cls
+    fn = os.path.join(tmp, "x_" + sample)
+
+    def d(way):
+        return {"runner": "c17.ways", "kind": kind.name, "sample": sample, "way": way}
+    try:
+        ref = K(io.BytesIO(data)); kind.ensure_tags(ref); add_value(kind, ref, 3000)
+        rb = io.BytesIO(data); ref.save(rb); want = rb.getvalue()
+        rd = io.BytesIO(want); K(io.BytesIO(want)).delete(rd); want_del = rd.getvalue()
+    except Exception:
+        return
+    for thing in ("bytesio", "minimal", "kw_fileobj"):
+        with open(fn, "wb") as h:
+            h.write(data)
+        try:
+            o = K(fn); kind.ensure_tags(o); add_value(kind, o, 3000)
+            f = Minimal(data, "raise") if thing == "minimal" else io.BytesIO(data)
+            o.save(fileobj=f) if thing == "kw_fileobj" else o.save(f)
+            got = f.getvalue()
+            with open(fn, "rb") as h:
+                onpath = h.read()
+            ctx.oracle_cases += 1
+            ctx.count("cross:path->" + thing)
+            ctx.case((kind.name, sample, "cross-save", thing))
+            if got != want or onpath != data:
+                ctx.violation("oracle", "C17 %s: an object loaded from a path and saved to a file object %s" % (
+                    kind.name, "left the stream unchanged and rewrote the path" if onpath != data else "wrote different bytes than saving in memory"), d("path-then-" + thing))
+            # delete through a stream, object loaded from the (tagged) path
+            with open(fn, "wb") as h:
+                h.write(want)
+            o = K(fn)
+            f = Minimal(want, "raise") if thing == "minimal" else io.BytesIO(want)
+            o.delete(fileobj=f) if thing == "kw_fileobj" else o.delete(f)
+            with open(fn, "rb") as h:
+                onpath = h.read()
+            ctx.oracle_cases += 1
+            if f.getvalue() != want_del or onpath != want:
+                ctx.violation("oracle", "C17 %s: an object loaded from a path and deleted through a file object acted on the wrong file" % kind.name, d("path-then-delete-" + thing))
+        except mutagen.MutagenError:
+            pass
+        except Exception as e:
+            ctx.violation("oracle", "C17 %s: load from a path then save/delete through a file object raised %s" % (kind.name, type(e).__name__), d("path-then-" + thing))
+    # the other direction: loaded from a stream, saved to a path
+    try:
+        with open(fn, "wb") as h:
+            h.write(data)
+        o = K(io.BytesIO(data)); kind.ensure_tags(o); add_value(kind, o, 3000)
+        o.save(fn)
+        with open(fn, "rb") as h:
+            onpath = h.read()
+        ctx.oracle_cases += 1
+        ctx.count("cross:stream->path")
+        if onpath != want:
+            ctx.violation("oracle", "C17 %s: an object loaded from a stream and saved to a path wrote different bytes" % kind.name, d("stream-then-path"))
+    except mutagen.MutagenError:
+        pass
+    except Exception as e:
+        ctx.violation("oracle", "C17 %s: load from a stream then save to a path raised %s" % (kind.name, type(e).__name__), d("stream-then-path"))
+
+
+def detect_ways(ctx, kind, sample, data, tmp):
+    """mutagen.File picks the same type whichever way the file is passed (named things: the name is the same)"""
+    if kind.is_tagclass:
+        return
+    fn = os.path.join(tmp, "d_" + sample.replace("+", "_"))
+    with open(fn, "wb") as h:
+        h.write(data)
+    # a name-decided variant: the same stream behind an ID3v2 tag (the extension has to settle the type)
+    variants = [("", fn)]
+    if not sample.startswith(("synth", "id3prefix")) and data[:3] != b"ID3":
+        fn2 = os.path.join(tmp, "p_" + sample.replace("+", "_"))
+        with open(fn2, "wb") as h:
+            h.write(b"ID3\x04\x00\x00\x00\x00\x00\x0a" + b"\x00" * 10 + data)
+        variants.append(("id3-prefixed ", fn2))
+
+    def outcome(thing):
+        try:
+            o = mutagen.File(thing)
+            return type(o).__name__
+        except mutagen.MutagenError as e:
+            return "MutagenError"
+        except Exception as e:
+            return "EXC:" + type(e).__name__
+    for lab, path in variants:
+        ref = outcome(path)
+        for way in ("bytes", "path", "file", "file_bytesname"):
+            if way == "bytes":
+                r = outcome(os.fsencode(path))
+            elif way == "path":
+                r = outcome(pathlib.Path(path))
+            else:
+                with open(os.fsencode(path) if way == "file_bytesname" else path, "rb") as h:
+                    r = outcome(h)
+            ctx.oracle_cases += 1
+            ctx.count("detect:" + way)
+            ctx.case((kind.name, sample, "detect", lab, way))
+            if r != ref:
+                ctx.violation("oracle", "C17 %s: mutagen.File on the %sfile gives %s through %s but %s through its str path" % (kind.name, lab, r, way, ref),
+                              {"runner": "c17.ways", "kind": kind.name, "sample": sample, "way": "detect-" + way})
+
+
 def format_oracle(ctx, kinds=None, max_size=200000):
     tmp = tempfile.mkdtemp(dir=os.path.join(VERIF, ".run"), prefix="c17_")
     asked = set()
@@ -182,6 +290,8 @@ def format_oracle(ctx, kinds=None, max_size=200000):
                         ctx.violation("oracle", "C17 %s: caller-supplied file object closed (%s)" % (kname, way), d)
                     asked |= a
                 load_only(ctx, kind, sample, data)
+                cross_ways(ctx, kind, sample, data, tmp)
+                detect_ways(ctx, kind, sample, data, tmp)
                 ref = res["bytesio"]
                 for way, r in res.items():
                     if way == "bytesio":
